@@ -109,6 +109,7 @@ type genInfo struct {
 	list2     bool // some list with >= 2 elements
 	zeroElem  bool // an inline-list element with all-zero fields
 	bigElem   bool // a tagged-list element longer than 255 bytes
+	elem255   bool // a tagged-list element (not the last) whose encoding is exactly k*255 bytes
 	kinds     map[string]bool
 	excluded  int
 }
@@ -116,7 +117,8 @@ type genInfo struct {
 var f32s = []float32{0, float32(math.Copysign(0, -1)), 1, -1, 0.5, math.SmallestNonzeroFloat32, -math.SmallestNonzeroFloat32, math.MaxFloat32, -math.MaxFloat32, 3.1415927, 1e-20, 29.97}
 
 func genLen(t *rapid.T, label string) int {
-	return rapid.OneOf(rapid.IntRange(0, 3), rapid.SampledFrom([]int{0, 1, 16, 254, 255, 256, 510, 600}), rapid.IntRange(0, 40)).Draw(t, label)
+	// 250 / 505 make a {uint8, bytes} element exactly 255 / 510 bytes long on the wire
+	return rapid.OneOf(rapid.IntRange(0, 3), rapid.SampledFrom([]int{0, 1, 16, 254, 255, 256, 510, 600}), rapid.IntRange(0, 40), rapid.IntRange(244, 260), rapid.IntRange(498, 512)).Draw(t, label)
 }
 
 func fillBytes(n int, seed byte) []byte {
@@ -207,7 +209,7 @@ func genValue(t *rapid.T, typ reflect.Type, path string, inInline bool, info *ge
 			info.kinds["bytes"] = true
 			return v
 		}
-		n := rapid.IntRange(0, 5).Draw(t, path+"#")
+		n := rapid.SampledFrom([]int{0, 0, 0, 1, 1, 2, 2, 3, 4, 5}).Draw(t, path+"#")
 		for i := 0; i < n; i++ {
 			v = reflect.Append(v, genValue(t, typ.Elem(), fmt.Sprintf("%s[%d]", path, i), inInline, info))
 		}
@@ -234,8 +236,13 @@ func genValue(t *rapid.T, typ reflect.Type, path string, inInline bool, info *ge
 				} else {
 					info.kinds["tagged-list"] = true
 					for j := 0; j < fv.Len(); j++ {
-						if len(refctl.StructEncode(fv.Index(j))) > 255 {
+						if l := len(refctl.StructEncode(fv.Index(j))); l > 255 {
 							info.bigElem = true
+						} else if l == 255 && j < fv.Len()-1 {
+							info.elem255 = true
+						}
+						if l := len(refctl.StructEncode(fv.Index(j))); l > 0 && l%255 == 0 && j < fv.Len()-1 {
+							info.elem255 = true
 						}
 					}
 				}
@@ -352,6 +359,9 @@ func TestC17Prop(t *testing.T) {
 		}
 		if info.bigElem {
 			classes = append(classes, "tagged-element>255")
+		}
+		if info.elem255 {
+			classes = append(classes, "tagged-element=k*255")
 		}
 		for i := 0; i < info.excluded; i++ {
 			stats.Excluded(kfInlineShift)
@@ -526,6 +536,9 @@ func TestC17Regress(t *testing.T) {
 		{"KF-C17-5", "inline list element with zero value ends the list", TwoInline{A: []EA{{1}, {0}, {2}}, B: []EB{{0}, {5}}}},
 		{"KF-C17-6", "inline list with multi-field elements: an element with an empty string takes the string of the next element (Items[1].Name reads \"c\" instead of \"\")", InlineList{Items: []Elem{{1, "a", 2}, {0, "", 0}, {3, "c", 4}}}},
 		{"", "inline list with multi-field elements, all fields present", InlineList{Items: []Elem{{1, "a", 2}, {0, "b", 0}, {3, "c", 4}}}},
+		{"", "tagged list element of exactly 255 bytes followed by another element", BigElemList{Items: []BigElem{{1, fillBytes(250, 1)}, {2, fillBytes(5, 2)}, {3, fillBytes(505, 3)}, {4, nil}}, After: 9}},
+		{"", "nested struct with only empty lists followed by non-zero fields", rtp.VideoCodecConfiguration{Type: 1, Parameters: rtp.VideoCodecParameters{}, Attributes: []rtp.VideoCodecAttributes{{1920, 1080, 30}}}},
+		{"", "stream configuration whose video codec parameters are empty", rtp.StreamConfiguration{Command: rtp.SessionControlCommand{Identifier: fillBytes(16, 1), Type: 1}, Video: rtp.VideoParameters{CodecType: 0, Attributes: rtp.VideoCodecAttributes{Width: 640, Height: 480, Framerate: 30}, RTP: rtp.RTPParams{PayloadType: 99, Ssrc: 7, Bitrate: 300, Interval: 0.5, MTU: 1378}}}},
 		{"", "library default video stream configuration", rtp.DefaultVideoStreamConfiguration()},
 		{"", "library default audio stream configuration", rtp.DefaultAudioStreamConfiguration()},
 		{"", "library configuration", rtp.NewConfiguration(rtp.CryptoSuite_AES_CM_128_HMAC_SHA1_80)},
